@@ -78,7 +78,11 @@ theorem run_bind (p : Prog) : ∀ (f : Val → Prog) (src : Src) (ts : TS),
     intro f src ts
     simp only [Prog.bind, Prog.run]
     cases (cleanupPhase (b.run src TS.fresh).ts).err with
-    | some e => simp [Out.andThen]
+    | some e =>
+      simp only []
+      cases hb : (b.run src TS.fresh).res with
+      | error e0 => by_cases hk : (e.isInvalid && !e0.isInvalid) = true <;> simp [Out.andThen, hk]
+      | ok v => simp [Out.andThen]
     | none =>
       simp only []
       cases hb : (b.run src TS.fresh).res with
